@@ -1918,6 +1918,9 @@ func (ce *callEngine) callNativeFunc(ctx context.Context, m *wasm.ModuleInstance
 					panic(wasmruntime.ErrRuntimeOutOfBoundsMemoryAccess)
 				}
 				ce.pushValue(lo)
+				if uint64(offset)+8 > math.MaxUint32 { // offset+8 below would wrap around.
+					panic(wasmruntime.ErrRuntimeOutOfBoundsMemoryAccess)
+				}
 				hi, ok := memoryInst.ReadUint64Le(offset + 8)
 				if !ok {
 					panic(wasmruntime.ErrRuntimeOutOfBoundsMemoryAccess)
